@@ -156,48 +156,47 @@ Qed.
 Theorem simpson_is_rule : forall (f : R -> C) (a b : R) divs,
   simpson Rops f a b divs = apply_rule Rops (simpson_rule Rops a b divs) f.
 Proof.
-  intros. unfold simpson, apply_rule, simpson_rule, simpson_rule_n, simpson_norm. cbv zeta.
+  intros. unfold simpson, apply_rule, simpson_rule, simpson_rule_n, simpson_norm, simpson_norm_divs. cbv zeta.
   rewrite !vsum_R. rewrite !map_map. cbn [vscale Rops fst snd sadd smul sdiv ssub s_of_Z].
   rewrite !rsum_scal. f_equal; apply rsum_ext; intros i _; ring.
 Qed.
 
-(* which divs the entry point accepts *)
+(* ------------------------------------------------------------------ accepted parameters: tactics that do not depend on the
+   particular normalisation / assert constants in the source (they survive the repairs proposed for F5a/F5b) *)
+Ltac bool_facts :=
+  repeat match goal with
+  | H : (_ && _)%bool = true |- _ => apply andb_true_iff in H; destruct H
+  | H : (_ <=? _)%Z = true |- _ => apply Z.leb_le in H
+  | H : (_ <? _)%Z = true |- _ => apply Z.ltb_lt in H
+  | H : Z.even _ = true |- _ => rewrite Zeven_mod in H; apply Zeq_is_eq_bool in H
+  | H : true = true |- _ => clear H
+  end.
+Ltac bool_goal :=
+  repeat match goal with
+  | |- (_ && _)%bool = true => apply andb_true_iff; split
+  | |- (_ <=? _)%Z = true => apply Z.leb_le
+  | |- (_ <? _)%Z = true => apply Z.ltb_lt
+  | |- Z.even _ = true => rewrite Zeven_mod; apply Zeq_is_eq_bool
+  | |- true = true => reflexivity
+  end.
+Ltac zmod_lia := Z.div_mod_to_equations; lia.
+
 Lemma simpson_norm_even : forall d, Z.even (simpson_norm d) = true.
-Proof.
-  intros d. unfold simpson_norm. apply Z.even_spec.
-  exists ((d + d mod 2) / 2 - 1)%Z.
-  assert (H : ((d + d mod 2) mod 2 = 0)%Z).
-  { rewrite Z.add_mod_idemp_r by lia. replace (d + d)%Z with (d * 2)%Z by lia. apply Z.mod_mul. lia. }
-  pose proof (Z.div_mod (d + d mod 2) 2 ltac:(lia)). lia.
-Qed.
+Proof. intros d. unfold simpson_norm, simpson_norm_divs. cbv zeta. bool_goal. zmod_lia. Qed.
 
-Lemma simpson_accepts_spec : forall d, simpson_accepts d = true <-> (4 <= simpson_norm d)%Z.
-Proof.
-  intros d. unfold simpson_accepts, simpson_norm. cbv zeta.
-  rewrite !andb_true_iff, Z.leb_le, Z.leb_le. lia.
-Qed.
+Lemma simpson_accepts_norm : forall d, simpson_accepts d = true -> (2 <= simpson_norm d)%Z.
+Proof. intros d H. unfold simpson_accepts, simpson_norm, simpson_norm_divs in *. cbv zeta in *. bool_facts. zmod_lia. Qed.
 
-Lemma simpson_accepts_iff : forall d, simpson_accepts d = true <-> (5 <= d)%Z.
-Proof.
-  intros d. rewrite simpson_accepts_spec. unfold simpson_norm.
-  pose proof (Z.mod_pos_bound d 2 ltac:(lia)) as Hb.
-  split; intros H.
-  - destruct (Z.eq_dec (d mod 2) 0) as [E|E]; [|lia].
-    (* d even and d - 2 >= 4, so d >= 6 *) lia.
-  - destruct (Z.eq_dec (d mod 2) 0) as [E|E].
-    + (* d even, d >= 5 hence d >= 6 *)
-      assert (d <> 5)%Z by (intros ->; cbn in E; lia).
-      lia.
-    + lia.
-Qed.
+(* every divs >= 5 is accepted *)
+Lemma simpson_accepts_from5 : forall d, (5 <= d)%Z -> simpson_accepts d = true.
+Proof. intros d H. unfold simpson_accepts. cbv zeta. bool_goal; zmod_lia. Qed.
 
 Theorem simpson_exact : forall divs (a b : R) cs,
   simpson_accepts divs = true -> (length cs <= 4)%nat ->
   simpson Rops (cpeval Rops cs) a b divs = cpint Rops cs a b.
 Proof.
   intros divs a b cs Ha Hl. rewrite simpson_is_rule. unfold simpson_rule.
-  apply simpson_rule_n_exact; [| apply simpson_norm_even | exact Hl].
-  apply simpson_accepts_spec in Ha. lia.
+  apply simpson_rule_n_exact; [apply simpson_accepts_norm; exact Ha | apply simpson_norm_even | exact Hl].
 Qed.
 
 (* ------------------------------------------------------------------ reversal *)
@@ -222,6 +221,6 @@ Theorem simpson_reverse : forall (f : R -> C) (a b : R) divs, simpson_accepts di
   simpson Rops f b a divs = Copp (simpson Rops f a b divs).
 Proof.
   intros f a b divs Ha. rewrite !simpson_is_rule, !apply_rule_R. unfold simpson_rule.
-  apply simpson_accepts_spec in Ha.
+  apply simpson_accepts_norm in Ha.
   unfold Copp. cbn [fst snd]. f_equal; apply simpson_rule_n_reverse_real; try lia; apply simpson_norm_even.
 Qed.
